@@ -57,10 +57,12 @@ pub fn sdl_with_scalar_directives(doc: &[MTsDef], cfg: &ScalarCfg) -> Vec<MTsDef
 pub fn emit(case: &mut Case, allow_undefined: bool) -> Result<Option<Emitted>, Failure> {
     let mut so = SchemaGenOpts::default();
     so.comment_close_in_text = case.allow("description_with_comment_close");
-    let gs = gen_schema(&mut case.ch, &so);
+    let mut gs = gen_schema(&mut case.ch, &so);
+    crate::gen_schema::narrow_some_fields(&mut case.ch, &mut gs);
     let mut dopts = DocGenOpts::default();
     dopts.merged_key_with_variable_condition = !case.is_excluded("merged_key_with_variable_condition");
-    let (gd, stripped) = gen_doc(&mut case.ch, &gs.schema, &dopts);
+    let (mut gd, stripped) = gen_doc(&mut case.ch, &gs.schema, &dopts);
+    gd.doc = crate::props::c08::tame_exponential(case, &gs.schema, std::mem::take(&mut gd.doc));
     if stripped {
         // redirected by the exclusion of a known finding
         let _ = case.allow("merged_key_with_variable_condition");
